@@ -99,6 +99,7 @@ struct Kernel {
   std::vector<int> connect_order;  // ports in the order connect() was called
   std::vector<int> socket_calls;   // 1 per socket() call
   std::deque<int> socket_script;   // 0 ok, errno otherwise
+  std::deque<int> socket_fd_script;  // descriptor numbers for the next socket() results (default: next free number from SIM_BASE)
   int bind_err = 0;
   std::deque<int> poll_eintr;
   bool stuck = false;  // poll would block forever
@@ -441,7 +442,12 @@ int __wrap_socket(int dom, int type, int proto) {
   (void)dom;
   (void)type;
   (void)proto;
-  int fd = k.create();
+  int fd;
+  if (!k.socket_fd_script.empty()) {
+    fd = k.create_at(k.socket_fd_script.front());
+    k.socket_fd_script.pop_front();
+  } else
+    fd = k.create();
   if (k.on_socket) k.on_socket(fd);
   return fd;
 }
